@@ -31,6 +31,11 @@ func mcfg(variant string, disk bool, segCount int, tracks ...string) muxCfg {
 	if variant == "ll" {
 		c.PartMS = 200
 	}
+	for _, t := range c.Tracks {
+		if t.Kind == "opus" {
+			c.OpusMix = true
+		}
+	}
 	return c
 }
 
@@ -55,6 +60,17 @@ func alphaParams(t int) []sym {
 	return a
 }
 
+// alphaReorder: H264 with reordered frames ("M" is written before the "b" frame that is displayed ahead of it).
+func alphaReorder(t int) []sym {
+	var a []sym
+	for _, d := range []string{"f", "S"} {
+		for _, k := range []string{"R", "n", "M", "b"} {
+			a = append(a, sym{T: t, D: d, K: k})
+		}
+	}
+	return append(a, sym{T: t, D: "S-", K: "R"}, sym{T: t, D: "f", K: "P"})
+}
+
 func alphaInterleave(cfg muxCfg) []sym {
 	var a []sym
 	for i, t := range cfg.Tracks {
@@ -64,6 +80,9 @@ func alphaInterleave(cfg muxCfg) []sym {
 					a = append(a, sym{T: i, D: d, K: k})
 				}
 			}
+		} else if t.Kind == "opus" {
+			// three packets: with OpusMix their durations differ (20, 10, 40 ms)
+			a = append(a, sym{T: i, D: "c", N: 1}, sym{T: i, D: "c", N: 3})
 		} else {
 			a = append(a, sym{T: i, D: "c", N: 1}, sym{T: i, D: "c", N: 2})
 		}
@@ -94,6 +113,8 @@ func (g e1Grid) alphabet() []sym {
 		return alphaParams(g.cfg.leading())
 	case "inter":
 		return alphaInterleave(g.cfg)
+	case "reorder":
+		return alphaReorder(g.cfg.leading())
 	}
 	return alphaAudio(g.cfg)
 }
@@ -120,6 +141,9 @@ func e1BaseGrid(tier string) []e1Grid {
 		{mcfg("ll", false, 7, "av1"), "timing"},
 		{mcfg("ll", false, 9, "h264"), "params"},
 		{mcfg("ll", false, 7, "aac44"), "audio"},
+		{mcfg("mpegts", false, 3, "h264b"), "reorder"},
+		{mcfg("fmp4", false, 3, "h264b"), "reorder"},
+		{mcfg("ll", false, 7, "h264b"), "reorder"},
 	}
 	if tier == "thorough" {
 		g = append(g,
